@@ -258,6 +258,38 @@ func init() {
 			r.violation(v)
 		}
 	})
+	// ModeTwin: D[0], D[1], I[0] = which operation. The default-mode form must
+	// equal the WithMode form called with the current DefaultRoundingMode
+	// (results are a function of the arguments and DefaultRoundingMode only).
+	reg("ModeTwin", func(x *Ctx, op *Op, r *Result) {
+		a, b := op.dec(0), op.dec(1)
+		m := decimal128.RoundingMode(x.mode)
+		x.call(r, func() {
+			var p, q, p2, q2 D
+			name := ""
+			switch op.int(0) % 6 {
+			case 0:
+				name, p, q = "Add", a.Add(b), a.AddWithMode(b, m)
+			case 1:
+				name, p, q = "Sub", a.Sub(b), a.SubWithMode(b, m)
+			case 2:
+				name, p, q = "Mul", a.Mul(b), a.MulWithMode(b, m)
+			case 3:
+				name, p, q = "Quo", a.Quo(b), a.QuoWithMode(b, m)
+			case 4:
+				name, p, q = "Pow", a.Pow(b), a.PowWithMode(b, m)
+			case 5:
+				name = "QuoRem"
+				p, p2 = a.QuoRem(b)
+				q, q2 = a.QuoRemWithMode(b, m)
+			}
+			r.dec(p, q, p2, q2)
+			if Hex(p) != Hex(q) || Hex(p2) != Hex(q2) {
+				r.inconsistent(name + " under DefaultRoundingMode " + m.String() + " = " + Hex(p) + " but " + name + "WithMode(" + m.String() + ") = " + Hex(q))
+			}
+		})
+	})
+
 	// Scribble: the client overwrites a byte slice it received earlier. Legal,
 	// and harmful only if the library handed out or kept an alias.
 	reg("Scribble", func(x *Ctx, op *Op, r *Result) {
